@@ -252,8 +252,7 @@ Lemma guard_unpack cfg user evs :
 Proof.
   unfold writer_guard, user_map_ok, events_ok. intros H.
   apply andb_true_iff in H as [Hu He].
-  apply andb_true_iff in Hu as [Hu Hdq]. apply andb_true_iff in Hu as [Hu Hda].
-  apply andb_true_iff in Hu as [Hleg Hcol].
+  apply andb_true_iff in Hu as [Hu Hdq]. apply andb_true_iff in Hu as [Hleg Hda].
   apply andb_true_iff in He as [He Hwf]. apply andb_true_iff in He as [He Hck].
   apply andb_true_iff in He as [He Hnil]. apply andb_true_iff in He as [He Hlate].
   apply andb_true_iff in He as [He Hadj]. apply andb_true_iff in He as [He Hcr].
